@@ -46,4 +46,22 @@ WellFormed(lays) ==
           /\ Len(lays[i].ref) = Len(lays[1].ref)
           /\ RefSensors(lays[i]) = RefSensors(lays[1])       \* the same physical reference sensors, same listed order
     /\ \A i, j \in DOMAIN lays : i # j => Range(MovSensors(lays[i])) \cap Range(MovSensors(lays[j])) = {}
+
+-----------------------------------------------------------------------------
+(* enumeration of multi-setup layouts: nref reference sensors (global ids 1..nref) shared by all      *)
+(* setups, cnt[i] roving sensors in setup i (global ids follow the references, setup by setup); every   *)
+(* arrangement of a setup's sensors in its local channel list                                           *)
+Perms(S) == {p \in [1..Cardinality(S) -> S] : \A a, b \in 1..Cardinality(S) : a # b => p[a] # p[b]}
+
+SetupLayouts(nref, rov) ==
+    LET sensors == (1..nref) \cup rov
+    IN {[chan |-> p, ref |-> [j \in 1..nref |-> CHOOSE c \in DOMAIN p : p[c] = j]] : p \in Perms(sensors)}
+
+RovIds(nref, cnt, i) ==
+    LET before == LET F[m \in 0..(i - 1)] == IF m = 0 THEN 0 ELSE F[m - 1] + cnt[m] IN F[i - 1]
+    IN {nref + before + r : r \in 1..cnt[i]}
+
+AllLayouts(nref, cnt) ==
+    {l \in [1..Len(cnt) -> UNION {SetupLayouts(nref, RovIds(nref, cnt, i)) : i \in 1..Len(cnt)}] :
+        \A i \in 1..Len(cnt) : l[i] \in SetupLayouts(nref, RovIds(nref, cnt, i))}
 =============================================================================
